@@ -13,10 +13,12 @@
     * `reg_stack_arg_machine`: `move_reg_to_stack_arg` stores the register extended as the parameter type requires, every integer
       type pair, every register value;
     * `vec_to_ptr_machine`: the two instructions of `move_vec_to_ptr` leave the pointer and the vector in the temporary;
-    * `reg_arg_not_extended_witness`: the open finding C06-K9 (register-position arguments are NOT extended).
-  Not proved: a single theorem for whole argument lists on the machine (the per-path theorems above + `temps_ok` are its pieces; what
-  is missing is the frame rule that distinct stack arguments do not overlap, which is `detail_matches_abi_*` of Props/C06.lean, and
-  the register allocator, C05); the post-RA instruction list of every generated call is judged by the same machine (monitor).
+    * `reg_reg_arg_machine`: 8/16-bit registers for wider integer register parameters are extended (fix C06-17);
+    * `reg_arg_not_extended_witness`: the open finding C06-K9 (an int32 register for an int64 register parameter is NOT sign-extended).
+  Whole argument lists: Props/C06InvokeList.lean (`pack_machine`, `invoke_int_args_machine`) composes these per-path theorems for any
+  number of integer arguments by a frame argument (every block writes only its own registers and its own slot).  Not in the list
+  theorem yet: vector / by-reference arguments (their pieces are `vec_to_ptr_machine` + `temps_ok`) and the register allocator (C05);
+  the post-RA instruction list of every generated call is judged by the same machine (monitor).
 -/
 import AsmjitVerif.Model.InvokeLower
 import AsmjitVerif.Spec.InvokeMachine
@@ -56,6 +58,17 @@ theorem moveImmToRegArg_keeps (s : LSt) (arg : FuncValue) (imm : BitVec 64) (s' 
   split at h
   · exact absurd h (by simp)
   · cases h; exact ⟨rfl, rfl, rfl⟩
+
+theorem moveRegToRegArg_keeps (s : LSt) (arg : FuncValue) (vid st : Nat) (s' : LSt) (rt id : Nat)
+    (h : moveRegToRegArg s arg vid st = .ok (s', rt, id)) :
+    s'.argStack = s.argStack ∧ s'.temps = s.temps ∧ s'.csAlign = s.csAlign := by
+  unfold moveRegToRegArg at h
+  simp only at h
+  split at h
+  · cases h; exact ⟨rfl, rfl, rfl⟩
+  · split at h
+    · cases h; exact ⟨rfl, rfl, rfl⟩
+    · exact absurd h (by simp)
 
 theorem moveImmToStackArg_keeps (s : LSt) (arg : FuncValue) (imm : BitVec 64) (s' : LSt)
     (h : moveImmToStackArg s arg imm = .ok s') :
@@ -138,6 +151,7 @@ theorem lowerValue_ok (base al : Nat) (s : LSt) (arg : FuncValue) (op : ArgOp) (
     repeat' (split at h)
     all_goals first
       | (cases h; exact hs)
+      | (cases h; exact TempsOk_of_keeps hs (moveRegToRegArg_keeps s arg vid t _ _ _ (by assumption)))
       | (exact absurd h (by simp))
       | (cases hm : moveRegToStackArg s arg vid t false with
          | error e => rw [hm] at h; simp [Except.map] at h
@@ -568,6 +582,56 @@ theorem reg_stack_arg_machine (is64 avx : Bool) (dt : Nat) (hdt : dt ∈ intTys8
     · exact reg_stack_wide avx 41 (by simp) st (by simp [intTys8]; omega)
     · simp [tySize] at hm
 
+/-! ## registers to register arguments (fix C06-17) -/
+
+theorem run_extR (m : M) (n : Mnm) (hn : n = .movsx ∨ n = .movzx) (rt : Nat) (hrt : rt = 5 ∨ rt = 6) (rs : Nat) (hrs : rs = 2 ∨ rs = 4)
+    (id vid : Nat) (x : BitVec 64) (hg : m.getGp vid = some (.num x 64)) :
+    ∃ m', run m [⟨n, false, [.reg rt id, .reg rs vid], false⟩] = some m' ∧
+      m'.getGp id = some (.num (if rt = 5 then zext32 (extOf n rs x) else extOf n rs x) 64) := by
+  rcases hn with rfl | rfl <;> rcases hrt with rfl | rfl <;> rcases hrs with rfl | rfl <;>
+    simp [run, step, readGp, writeGp, hg, rtBits, getGp_setGp, extOf]
+
+/-- **8/16-bit register for a wider integer register parameter, every type pair, every register content**: the instruction
+    `move_reg_to_reg_arg` emits leaves, in the new register the invoke passes instead, the value extended as the parameter type
+    requires (all 64 bits defined) -/
+theorem reg_reg_arg_machine (s : LSt) (arg : FuncValue) (hdt : arg.typeId ∈ intTys8) (st : Nat) (hst : st ∈ [34, 35, 36, 37])
+    (hw : tySize arg.typeId > tySize st) (vid : Nat) (s' : LSt) (rt id : Nat) (h : moveRegToRegArg s arg vid st = .ok (s', rt, id))
+    (m : M) (x : BitVec 64) (hg : m.getGp vid = some (.num x 64)) :
+    ∃ i m', s'.out = s.out ++ [i] ∧ run m [i] = some m' ∧
+      readGp m' id (viewRt arg.typeId) = some (lowBytes (tySize arg.typeId) (widen arg.typeId st x)) := by
+  generalize hd : arg.typeId = dt at *
+  unfold moveRegToRegArg at h
+  simp only [hd] at h
+  simp only [intTys8, List.mem_cons, List.mem_nil_iff, or_false] at hdt hst
+  rcases hdt with rfl | rfl | rfl | rfl | rfl | rfl | rfl | rfl <;> rcases hst with rfl | rfl | rfl | rfl <;>
+    simp [tySize] at hw <;> simp [isGp8, isGp16, tySize] at h <;> obtain ⟨rfl, rfl, rfl⟩ := h
+  all_goals
+    first
+    | (obtain ⟨m', h1, h2⟩ := run_extR m .movsx (Or.inl rfl) 5 (Or.inl rfl) 2 (Or.inl rfl) s.nextV vid x hg
+       refine ⟨_, m', rfl, h1, ?_⟩
+       simp [readGp, h2, viewRt, tySize, rtBits, lowBytes, widen, isInt, isBetween, extOf, zext32, sext8, sext16] <;> bv_decide)
+    | (obtain ⟨m', h1, h2⟩ := run_extR m .movzx (Or.inr rfl) 5 (Or.inl rfl) 2 (Or.inl rfl) s.nextV vid x hg
+       refine ⟨_, m', rfl, h1, ?_⟩
+       simp [readGp, h2, viewRt, tySize, rtBits, lowBytes, widen, isInt, isBetween, extOf, zext32, zext8, zext16] <;> bv_decide)
+    | (obtain ⟨m', h1, h2⟩ := run_extR m .movsx (Or.inl rfl) 5 (Or.inl rfl) 4 (Or.inr rfl) s.nextV vid x hg
+       refine ⟨_, m', rfl, h1, ?_⟩
+       simp [readGp, h2, viewRt, tySize, rtBits, lowBytes, widen, isInt, isBetween, extOf, zext32, sext8, sext16] <;> bv_decide)
+    | (obtain ⟨m', h1, h2⟩ := run_extR m .movzx (Or.inr rfl) 5 (Or.inl rfl) 4 (Or.inr rfl) s.nextV vid x hg
+       refine ⟨_, m', rfl, h1, ?_⟩
+       simp [readGp, h2, viewRt, tySize, rtBits, lowBytes, widen, isInt, isBetween, extOf, zext32, zext8, zext16] <;> bv_decide)
+    | (obtain ⟨m', h1, h2⟩ := run_extR m .movsx (Or.inl rfl) 6 (Or.inr rfl) 2 (Or.inl rfl) s.nextV vid x hg
+       refine ⟨_, m', rfl, h1, ?_⟩
+       simp [readGp, h2, viewRt, tySize, rtBits, lowBytes, widen, isInt, isBetween, extOf, sext8, sext16] <;> bv_decide)
+    | (obtain ⟨m', h1, h2⟩ := run_extR m .movzx (Or.inr rfl) 6 (Or.inr rfl) 2 (Or.inl rfl) s.nextV vid x hg
+       refine ⟨_, m', rfl, h1, ?_⟩
+       simp [readGp, h2, viewRt, tySize, rtBits, lowBytes, widen, isInt, isBetween, extOf, zext8, zext16] <;> bv_decide)
+    | (obtain ⟨m', h1, h2⟩ := run_extR m .movsx (Or.inl rfl) 6 (Or.inr rfl) 4 (Or.inr rfl) s.nextV vid x hg
+       refine ⟨_, m', rfl, h1, ?_⟩
+       simp [readGp, h2, viewRt, tySize, rtBits, lowBytes, widen, isInt, isBetween, extOf, sext8, sext16] <;> bv_decide)
+    | (obtain ⟨m', h1, h2⟩ := run_extR m .movzx (Or.inr rfl) 6 (Or.inr rfl) 4 (Or.inr rfl) s.nextV vid x hg
+       refine ⟨_, m', rfl, h1, ?_⟩
+       simp [readGp, h2, viewRt, tySize, rtBits, lowBytes, widen, isInt, isBetween, extOf, zext8, zext16] <;> bv_decide)
+
 /-! ## by-reference vectors -/
 
 /-- the two instructions of `move_vec_to_ptr` on the machine: the pointer register addresses the temporary and the temporary holds
@@ -581,14 +645,14 @@ theorem vec_to_ptr_machine (m : M) (nrt pid : Nat) (off : Nat) (vrt vid k : Nat)
   simp [run, step, addrOf, spId, hp, getGp_setGp, hvg, hgv, cell_store_same]
   simp [M.store, M.getGp, M.setGp]
 
-/-! ## open finding C06-K9 (known_findings.json): register-position integer arguments are passed as they are
+/-! ## open finding C06-K9 (known_findings.json), what is left of it after fix C06-17: an int32 register for an int64 register parameter
 
-  `on_before_invoke` emits nothing for a GP register passed for an integer parameter in a register position, whatever the two
-  types; the allocator then places the virtual register in the argument register.  A narrower register therefore reaches the callee
-  with its upper bits undefined (8/16-bit registers) or zero-extended (32-bit registers, also for signed -> signed), while the same
-  argument in a stack position is extended by `move_reg_to_stack_arg` (`reg_stack_arg_machine`).  Witness on the model: an `int32`
+  `on_before_invoke` extends 8/16-bit registers passed for wider integer register parameters (`reg_reg_arg_machine`) but still emits
+  nothing for a 32-bit register; the allocator places the virtual register in the argument register, zero-extended by the 32-bit
+  write that produced it – also for int32 -> int64, where the parameter type requires sign extension and where the same argument in a
+  stack position gets `movsxd` (`reg_stack_arg_machine`).  Witness on the model: an `int32`
   register holding 0x88664422 for an `int64` parameter in rdx: no instruction, the callee reads 0x0000000088664422, the parameter
-  type requires 0xFFFFFFFF88664422.  (Host execution shows it on the real code: `ivx 32 2 1 40=r36 -> g7fff10d62211`.) -/
+  type requires 0xFFFFFFFF88664422.  (Host execution: `ivx 33 0 8 40=r36 40=r37 40=r38 … -> … gcc996633`.) -/
 theorem reg_arg_not_extended_witness :
     let arg : FuncValue := .reg 40 6 2
     let s0 : LSt := { is64 := true, avx := false, argStack := 0, csAlign := 16 }
